@@ -46,6 +46,47 @@ def class_table():
     }
 
 
+def wire_map(T, n):
+    """Reads the wire permutation off an evaluated tensor with n input and n output wires (all dimensions >= 2):
+    q[i] = output position of input wire i, and whether the array is exactly that permutation tensor."""
+    import numpy as np
+    A = np.asarray(T.array)
+    dims = tuple(T.dom)
+    if n == 0:
+        return [], int(len(T.dom) == 0 and len(T.cod) == 0 and A.size == 1 and A.flat[0] == 1)
+    if len(T.dom) != n or len(T.cod) != n or A.shape != tuple(T.dom) + tuple(T.cod):
+        return [], 0
+    q = []
+    for i in range(n):
+        row = A[tuple(1 if k == i else 0 for k in range(n))]
+        nz = np.argwhere(row != 0)
+        if len(nz) != 1 or row[tuple(nz[0])] != 1 or sorted(nz[0]) != [0] * (n - 1) + [1]:
+            return [], 0
+        q.append(int(list(nz[0]).index(1)))
+    if sorted(q) != list(range(n)):
+        return q, 0
+    E = np.eye(int(np.prod(dims)) if n else 1).reshape(dims + dims)
+    E = np.moveaxis(E, [n + i for i in range(n)], [n + q[i] for i in range(n)])
+    return q, int(E.shape == A.shape and np.array_equal(E, A))
+
+
+def _size(dim):
+    n = 1
+    for v in dim:
+        n *= v
+    return n
+
+
+def sem_row(cls, kind, src, fn, n, nl=0, nr=0, perm=()):
+    row = {"cls": cls, "kind": kind, "how": src, "lt": [0] * nl, "rt": [0] * nr, "perm": list(perm), "nl": nl, "nr": nr,
+           "q": [], "isperm": 0, "exc": "", "dom": [], "res": {k: EMPTY_OBS[k] for k in ("dom", "cod", "boxes", "offs")}}
+    try:
+        row["q"], row["isperm"] = wire_map(fn(), n)
+    except Exception as e:
+        row["exc"] = type(e).__name__
+    return row
+
+
 def observe(fn, names):
     try:
         res = fn()
@@ -111,6 +152,35 @@ def run(tier, seed, t0):
                 rows.append({"cls": cls, "kind": "perm", "how": "permutation", "lt": [], "rt": [], "perm": p,
                              "dom": proj_ty(dom, names), "exc": exc, "res": res})
         sink.uninstall()
+        # semantic leg: what the swaps and permutations of the tensor and (pure) circuit classes evaluate to
+        from discopy import tensor as _t
+        from discopy.quantum import circuit as _c
+        dimty = table["tensor"][1]
+        for req in reqs:
+            if req["kind"] == "swap":
+                nl, nr = req["nl"], req["nr"]
+                for var in (0, 1):
+                    lt, rt = dimty(nl, var), dimty(nl + nr, var)[nl:]
+                    if _size(lt @ rt) > 800:
+                        continue
+                    rows.append(sem_row("tensor", "semswap", "Tensor.swap", lambda: _t.Tensor.swap(lt, rt), nl + nr, nl, nr))
+                    rows.append(sem_row("tensor", "semswap", "Diagram.swap.eval", lambda: _t.Diagram.swap(lt, rt).eval(), nl + nr, nl, nr))
+                if nl + nr <= 4:
+                    rows.append(sem_row("circuit", "semswap", "Circuit.swap.eval", lambda: _c.Circuit.swap(
+                        _c.qubit ** nl, _c.qubit ** nr).eval(), nl + nr, nl, nr))
+            else:
+                p = list(req["p"])
+                for var in (0, 1):
+                    dom = dimty(len(p), var)
+                    if _size(dom) > 800:
+                        continue
+                    # (tensor.Diagram.permutation itself returns a rigid.Diagram, which has no eval: permute is the
+                    # entry point that stays in the class)
+                    rows.append(sem_row("tensor", "semperm", "Diagram.id.permute.eval",
+                                        lambda: _t.Diagram.id(dom).permute(*p).eval(), len(p), perm=p))
+                if len(p) <= 4:
+                    rows.append(sem_row("circuit", "semperm", "Circuit.permutation.eval", lambda: _c.Circuit.permutation(
+                        list(p), _c.qubit ** len(p)).eval(), len(p), perm=p))
         tf = os.path.join(work, "trace.ndjson")
         core.write_ndjson(tf, rows)
         val = core.validate("Trace_Perm", "J10", tf, work, constants={"MaxN": 0})
@@ -183,7 +253,18 @@ def replay(path):
     with core.workdir("C10-replay") as work:
         rows = []
         for var in (0, 1):
-            if obs["kind"] == "swap":
+            if obs["kind"] in ("semswap", "semperm"):
+                from discopy import tensor as _t
+                from discopy.quantum import circuit as _c
+                nl, nr, p = obs["nl"], obs["nr"], list(obs["perm"])
+                dimty = table["tensor"][1]
+                lt, rt, dom = dimty(nl, var), dimty(nl + nr, var)[nl:], dimty(len(p), var)
+                fn = {"Tensor.swap": lambda: _t.Tensor.swap(lt, rt), "Diagram.swap.eval": lambda: _t.Diagram.swap(lt, rt).eval(),
+                      "Circuit.swap.eval": lambda: _c.Circuit.swap(_c.qubit ** nl, _c.qubit ** nr).eval(),
+                      "Diagram.id.permute.eval": lambda: _t.Diagram.id(dom).permute(*p).eval(),
+                      "Circuit.permutation.eval": lambda: _c.Circuit.permutation(list(p), _c.qubit ** len(p)).eval()}[obs["how"]]
+                rows.append(sem_row(obs["cls"], obs["kind"], obs["how"], fn, nl + nr if obs["kind"] == "semswap" else len(p), nl, nr, p))
+            elif obs["kind"] == "swap":
                 nl, nr = len(obs["lt"]), len(obs["rt"])
                 lt, rt = mk(nl, var), mk(nl + nr, var)[nl:]
                 exc, res = observe(lambda: factory.swap(lt, rt), names)
